@@ -348,6 +348,16 @@ func (fa *Facts) Canon(v ssa.Value) ssa.Value {
 		case *ssa.ChangeType:
 			v = x.X
 			continue
+		case *ssa.UnOp:
+			// a variable kept in a cell (a named result captured by a deferred closure, an address-taken local)
+			// read straight after it was assigned: the value read is the value stored
+			if x.Op == token.MUL {
+				if fwd := storeForwarded(x); fwd != nil {
+					v = fwd
+					continue
+				}
+			}
+			return v
 		case *ssa.MakeInterface:
 			// keep: interface != nil comparisons need the wrapper to be seen as non-nil
 			return v
@@ -371,6 +381,43 @@ func (fa *Facts) Canon(v ssa.Value) ssa.Value {
 		}
 		return v
 	}
+}
+
+// storeForwarded: for a load of a local cell, the value of the store to that cell which precedes the load in the
+// same block with nothing in between that could write the cell (no call, no other store through a pointer).
+func storeForwarded(ld *ssa.UnOp) ssa.Value {
+	cell, ok := ld.X.(*ssa.Alloc)
+	if !ok || ld.Block() == nil {
+		return nil
+	}
+	instrs := ld.Block().Instrs
+	at := -1
+	for i, in := range instrs {
+		if in == ssa.Instruction(ld) {
+			at = i
+			break
+		}
+	}
+	for i := at - 1; i >= 0; i-- {
+		switch in := instrs[i].(type) {
+		case *ssa.Store:
+			if in.Addr == ssa.Value(cell) {
+				return in.Val
+			}
+			if _, direct := in.Addr.(*ssa.Alloc); !direct {
+				if _, isFA := in.Addr.(*ssa.FieldAddr); !isFA {
+					if _, isIA := in.Addr.(*ssa.IndexAddr); !isIA {
+						return nil // a store through some other pointer
+					}
+				}
+			}
+		case ssa.CallInstruction:
+			return nil
+		case *ssa.Select, *ssa.Send, *ssa.MapUpdate, *ssa.RunDefers:
+			return nil
+		}
+	}
+	return nil
 }
 
 func basicClass(b *types.Basic) string {
